@@ -197,12 +197,23 @@ def wiring(ctx):
     # what is published under both names is the object stored as <tail>.inherits (read back, or the same local)
     same = {ih + ".inherits", src(a[0].value)} if isinstance(a[0].value, ast.Name) else {ih + ".inherits"}
     published = {}
+    pub_stmts = []
     for s in walk_func(fn):
         if isinstance(s, ast.Assign):
             for x in s.targets:
                 if src(x) in ("%s._data['parent']" % pn(fn, 0), "%s._data['local']" % lcl):
                     published.setdefault(src(x), []).append(src(s.value))
+                    pub_stmts.append(s)
     ok = len(published) == 2 and all(len(vs) == 1 and vs[0] in same for vs in published.values())
+    # both are in place before anything of the parent runs (its own <%inherit>, its namespaces) and on every path out
+    g_ = cfgmod.function_cfg(fn)
+    later = [s_ for s_ in fn.body if any(isinstance(c_, ast.Call) and isinstance(c_.func, ast.Name) and c_.func.id not in ("getattr", "TemplateNamespace", "_lookup_template") for c_ in ast.walk(s_))]
+    for ps in pub_stmts:
+        if ps not in fn.body:
+            ok = False
+        for lt_ in later:
+            if ps in fn.body and lt_ in fn.body and fn.body.index(lt_) < fn.body.index(ps):
+                ok = False
     ctx.check(ok, "parent-local", db.where(fn), "the namespace stored as ih.inherits is not the one published as `parent` of the child and `local` of the parent", "parent (child's context) = local (parent's context) = ih.inherits")
     def _via_module(attr, then):
         for _n, env_ in P.find(fn, "$f = getattr($mod, '%s', None)\nif $f is not None:\n%s" % (attr, then)):
